@@ -13,7 +13,17 @@ type Func struct {
 	Body    []*V
 	Env     *Env
 	Builtin func(ev *Ev, args []*V) []*V
+	Opt     []Param
+	Rest    string
+	Keys    []Param
+	HasKey  bool
 	active  int
+}
+
+// Param is an &optional or &key parameter with its init form (or nil).
+type Param struct {
+	Name string
+	Init *V
 }
 
 type cell struct{ v *V }
@@ -30,6 +40,7 @@ type Env struct {
 	dyn    *Env
 	call   bool // frame of a function call (parameters)
 	exited bool // the form that made the frame has returned
+	iter   bool // frame of one iteration of dolist / dotimes
 }
 
 func (e *Env) local(name string) *cell {
@@ -61,6 +72,9 @@ func (e *Env) lookup(name string) *cell {
 func (e *Env) how(name string) (captured, escaped bool) {
 	for f := e; f != nil; f = f.lex {
 		if c := f.local(name); c != nil {
+			if f.iter && f.exited {
+				staleIter = true
+			}
 			return captured, f.exited
 		}
 		if f.call {
@@ -69,6 +83,11 @@ func (e *Env) how(name string) (captured, escaped bool) {
 	}
 	return false, false
 }
+
+// staleIter is raised when a dolist/dotimes variable is reached after its
+// iteration ended: the language leaves open whether each iteration has its
+// own binding (see Ev.LoopAssign).
+var staleIter bool
 
 // callerFirst finds the binding a "call-site frame first, then defining
 // frame" search would reach (labelling only).
@@ -112,9 +131,13 @@ type Ev struct {
 	Steps    int
 	MaxSteps int
 	MaxInt   int64
-	globals  map[string]*cell
-	funcs    map[string]*Func
-	depth    int
+	// LoopAssign: dolist and dotimes establish one binding and assign it on
+	// every iteration (the other behaviour the language permits is a new
+	// binding per iteration, the default here).
+	LoopAssign bool
+	globals    map[string]*cell
+	funcs      map[string]*Func
+	depth      int
 }
 
 // New creates an evaluator with the given step budget.
@@ -213,7 +236,12 @@ func (ev *Ev) getVar(name string, env *Env) *V {
 		if d := env.callerFirst(name, map[*Env]bool{}); d != c {
 			ev.note("dynleak")
 		}
-		if cp, esc := env.how(name); cp {
+		staleIter = false
+		cp, esc := env.how(name)
+		if staleIter {
+			ev.note("loop-variable-after-its-iteration")
+		}
+		if cp {
 			ev.note("closure:captured-read")
 			if esc {
 				ev.note("closure:read-after-binding-form-returned")
@@ -236,7 +264,12 @@ func (ev *Ev) setVar(name string, v *V, env *Env) {
 		if d := env.callerFirst(name, map[*Env]bool{}); d != c {
 			ev.note("dynleak")
 		}
-		if cp, esc := env.how(name); cp {
+		staleIter = false
+		cp, esc := env.how(name)
+		if staleIter {
+			ev.note("loop-variable-after-its-iteration")
+		}
+		if cp {
 			ev.note("closure:captured-write")
 			if esc {
 				ev.note("closure:write-after-binding-form-returned")
@@ -258,6 +291,10 @@ func (ev *Ev) setVar(name string, v *V, env *Env) {
 func symName(v *V, what string) string {
 	if v.K != KSym || v == Nil || v == T || strings.HasPrefix(v.S, ":") {
 		fail("program-error", "%s must be a variable name, not %s", what, v)
+	}
+	if _, isFn := builtins[v.S]; isFn || special[v.S] != nil || v.S == "e" || v.S == "pi" {
+		// kept out of the subset: names of operators and of constants
+		fail("program-error", "%s %s is the name of an operator or constant", what, v)
 	}
 	return v.S
 }
@@ -310,14 +347,21 @@ func (ev *Ev) eval(f *V, env *Env) []*V {
 	if sf, ok := special[head.S]; ok {
 		return sf(ev, args, env, f)
 	}
+	before := ev.funcs[head.S]
+	argv := ev.evalArgs(args, env, "call")
 	fn := ev.funcs[head.S]
+	if fn != before {
+		// the language does not say whether the operator of a function form
+		// is looked up before or after its arguments are evaluated
+		fail("unspecified", "function %s is (re)defined while its arguments are evaluated", head.S)
+	}
 	if fn == nil {
 		fn = builtins[head.S]
 	}
 	if fn == nil {
 		fail("undefined-function", "function %s is undefined", head.S)
 	}
-	return ev.applyFn(fn, ev.evalArgs(args, env, "call"), env, "call")
+	return ev.applyFn(fn, argv, env, "call")
 }
 
 func (ev *Ev) evalArgs(forms []*V, env *Env, where string) []*V {
@@ -332,11 +376,125 @@ func (ev *Ev) makeLambda(spec []*V, env *Env, name string) *V {
 	if len(spec) < 1 {
 		fail("program-error", "lambda needs a parameter list")
 	}
-	var params []string
+	fn := &Func{Name: name, Body: spec[1:], Env: env}
+	mode := 0 // required, &optional, &rest, &key
+	seen := map[string]bool{}
 	for _, p := range properList(spec[0], "lambda list") {
-		params = append(params, symName(p, "parameter"))
+		if p.K == KSym && strings.HasPrefix(p.S, "&") {
+			switch {
+			case p.S == "&optional" && mode == 0:
+				mode = 1
+			case p.S == "&rest" && mode <= 1:
+				mode = 2
+			case p.S == "&key" && mode <= 3 && !fn.HasKey:
+				mode, fn.HasKey = 4, true
+			default:
+				fail("program-error", "lambda list keyword %s misplaced or not supported", p.S)
+			}
+			continue
+		}
+		var nm string
+		var init *V
+		switch {
+		case p.K == KSym:
+			nm = symName(p, "parameter")
+		case (mode == 1 || mode == 4) && p.K == KList && p.Tail == nil && len(p.L) == 2:
+			nm, init = symName(p.L[0], "parameter"), p.L[1]
+		default:
+			fail("program-error", "bad parameter %s", p)
+		}
+		if seen[nm] {
+			fail("program-error", "parameter %s occurs twice", nm)
+		}
+		seen[nm] = true
+		switch mode {
+		case 0:
+			fn.Params = append(fn.Params, nm)
+		case 1:
+			fn.Opt = append(fn.Opt, Param{nm, init})
+		case 2:
+			fn.Rest, mode = nm, 3
+		case 3:
+			fail("program-error", "more than one &rest parameter")
+		case 4:
+			fn.Keys = append(fn.Keys, Param{nm, init})
+		}
 	}
-	return &V{K: KFn, Fn: &Func{Name: name, Params: params, Body: spec[1:], Env: env}}
+	if mode == 2 {
+		fail("program-error", "&rest without a parameter")
+	}
+	return &V{K: KFn, Fn: fn}
+}
+
+// bindArgs binds the arguments of a call according to the lambda list;
+// init forms see the parameters to their left.
+func (ev *Ev) bindArgs(fn *Func, args []*V, fr *Env) {
+	n := len(fn.Params)
+	if len(args) < n {
+		fail("program-error", "function %s called with %d arguments, requires %d", fn.Name, len(args), n)
+	}
+	if fn.Rest == "" && !fn.HasKey && n+len(fn.Opt) < len(args) {
+		fail("program-error", "function %s called with %d arguments, takes at most %d", fn.Name, len(args), n+len(fn.Opt))
+	}
+	for i, p := range fn.Params {
+		fr.bind(p, args[i])
+	}
+	rest := args[n:]
+	for _, o := range fn.Opt {
+		switch {
+		case 0 < len(rest):
+			fr.bind(o.Name, rest[0])
+			rest = rest[1:]
+		case o.Init != nil:
+			ev.note("lambda-list:optional-default")
+			fr.bind(o.Name, ev.eval1(o.Init, fr, "parameter-init"))
+		default:
+			fr.bind(o.Name, Nil)
+		}
+	}
+	if fn.Rest != "" {
+		ev.note("lambda-list:rest")
+		fr.bind(fn.Rest, List(append([]*V{}, rest...)...))
+	}
+	if fn.HasKey {
+		if len(rest)%2 != 0 {
+			fail("program-error", "odd number of keyword arguments")
+		}
+		for i := 0; i < len(rest); i += 2 {
+			k := rest[i]
+			known := false
+			for _, kp := range fn.Keys {
+				if k.K == KSym && k.S == ":"+kp.Name {
+					known = true
+				}
+			}
+			if !known {
+				fail("program-error", "unknown keyword argument %s", k)
+			}
+		}
+		for _, kp := range fn.Keys {
+			found := false
+			for i := 0; i < len(rest); i += 2 {
+				if rest[i].S == ":"+kp.Name {
+					if found {
+						ev.note("lambda-list:key-twice")
+						continue
+					}
+					fr.bind(kp.Name, rest[i+1])
+					found = true
+				}
+			}
+			switch {
+			case found:
+				ev.note("lambda-list:key-given")
+			case kp.Init != nil:
+				ev.note("lambda-list:key-default")
+				fr.bind(kp.Name, ev.eval1(kp.Init, fr, "parameter-init"))
+			default:
+				fr.bind(kp.Name, Nil)
+			}
+		}
+	}
 }
 
 // apply calls a function object with evaluated arguments. site is the
@@ -356,13 +514,8 @@ func (ev *Ev) applyFn(fn *Func, args []*V, site *Env, via string) []*V {
 	if fn.Builtin != nil {
 		return fn.Builtin(ev, args)
 	}
-	if len(args) != len(fn.Params) {
-		fail("program-error", "function %s called with %d arguments, takes %d", fn.Name, len(args), len(fn.Params))
-	}
 	fr := &Env{lex: fn.Env, dyn: site, call: true}
-	for i, p := range fn.Params {
-		fr.bind(p, args[i])
-	}
+	ev.bindArgs(fn, args, fr)
 	ev.depth++
 	if 400 < ev.depth {
 		fail("limit", "recursion too deep")
@@ -786,15 +939,29 @@ func init() {
 			}
 			name := symName(spec[0], "dolist variable")
 			lst := ev.eval1(spec[1], env, "dolist-list")
+			one1 := &Env{lex: env}
+			one1.bind(name, Nil)
 			for _, e := range properList(lst, "dolist list") {
-				fr := &Env{lex: env}
-				fr.bind(name, e)
+				fr := one1
+				if ev.LoopAssign {
+					fr.cells[0].v = e
+				} else {
+					fr = &Env{lex: env, iter: true}
+					fr.bind(name, e)
+				}
 				ev.tick()
 				ev.loopBody(args[1:], fr, "dolist")
+				fr.exited = !ev.LoopAssign
+			}
+			if ev.LoopAssign {
+				one1.cells[0].v = Nil
 			}
 			if len(spec) == 3 {
 				fr := &Env{lex: env}
 				fr.bind(name, Nil)
+				if ev.LoopAssign {
+					fr = one1
+				}
 				vs := ev.eval(spec[2], fr)
 				if isMV(vs) {
 					ev.note("mv-through:dolist-result")
@@ -815,14 +982,28 @@ func init() {
 			if cnt.K != KInt {
 				fail("type-error", "dotimes count %s is not an integer", cnt)
 			}
+			one1 := &Env{lex: env}
+			one1.bind(name, Int(0))
 			for i := int64(0); i < cnt.I; i++ {
-				fr := &Env{lex: env}
-				fr.bind(name, Int(i))
+				fr := one1
+				if ev.LoopAssign {
+					fr.cells[0].v = Int(i)
+				} else {
+					fr = &Env{lex: env, iter: true}
+					fr.bind(name, Int(i))
+				}
 				ev.tick()
 				ev.loopBody(args[1:], fr, "dotimes")
+				fr.exited = !ev.LoopAssign
+			}
+			if ev.LoopAssign {
+				one1.cells[0].v = Int(cnt.I)
 			}
 			if len(spec) == 3 {
 				fr := &Env{lex: env}
+				if ev.LoopAssign {
+					fr = &Env{lex: one1}
+				}
 				// slip documents: "var is bound to the value returned by
 				// count-form" when the result form is evaluated (equal to
 				// the CL rule for every count >= 0)
